@@ -93,7 +93,7 @@ def gen_history(rng):
 # skipped case families: the unchanged library violates the property there (reported; remove the entry to see the failures)
 #   gdc-odd-names   a definition whose version or annotation starts with "gdc-" but is not "gdc-<n>.<n>.<n>[-<suffix>]"
 #                   ("gdc-1.0", "gdc-1.0.0.1-x", "gdc-x") cannot be registered: scheme_sort_key raises TypeError / ValueError
-PENDING_DEFECTS = ("gdc-odd-names",)
+PENDING_DEFECTS = ()
 
 UUID_TEXT = "7b2a1f3e-58a4-4c70-9a8f-0d1c2e3f4a5b"
 # column type name -> (texts the type accepts and renders unchanged, texts it refuses); from the documentation of the types
